@@ -570,8 +570,9 @@ func (h *echoHandler) Handle(ctx context.Context, call *tchannel.InboundCall) {
 		code, _ := strconv.Atoi(cmd["code"])
 		wr, err := resp.Arg3Writer()
 		if err == nil {
-			wr.Write(r3[:len(r3)/2])
-			wr.Flush()
+			if _, werr := wr.Write(r3[:len(r3)/2]); werr == nil {
+				wr.Flush()
+			}
 		}
 		obs.RespErr = resp.SendSystemError(tchannel.NewSystemError(tchannel.SystemErrCode(code), "%s", cmd["msg"]))
 		h.watchCtx(ctx, obs)
